@@ -2884,10 +2884,12 @@ impl Context {
                 self.get_ctxdata().next_state_offset = Some(skeleton.total_size());
                 let (retv, _t, states) = self.eval_expr(*expr);
 
+                // The feed cell is read before the body runs (`GetState` above, at the
+                // function's origin) and the body's states follow it: publish it first.
                 (
                     Arc::new(Value::State(retv)),
                     ty,
-                    [states, vec![skeleton]].concat(),
+                    [vec![skeleton], states].concat(),
                 )
             }
             Expr::Let(pat, body, then) => {
